@@ -110,7 +110,7 @@ fn placement_garbage() -> impl Strategy<Value = String> {
         1 => "\\PC{0,12}",
     ]
 }
-fn six_fields() -> impl Strategy<Value = String> {
+pub fn six_fields() -> impl Strategy<Value = String> {
     (placement_garbage(), prop_oneof![2 => Just("w".to_string()), 2 => Just("b".to_string()), 1 => field_garbage()], prop_oneof![3 => "[KQkq]{0,4}", 1 => Just("-".to_string()), 1 => field_garbage()], prop_oneof![2 => Just("-".to_string()), 2 => "[a-h][36]", 3 => field_garbage()], prop_oneof![2 => "[0-9]{1,3}", 1 => field_garbage()], prop_oneof![2 => "[0-9]{1,4}", 1 => field_garbage()], prop_oneof![8 => Just(" "), 1 => Just("  "), 1 => Just("\t")])
         .prop_map(|(a, b, c, d, e, f, sep)| [a, b, c, d, e, f].join(sep))
 }
@@ -132,7 +132,7 @@ fn counter_full() -> impl Strategy<Value = u32> {
 fn edit_char() -> impl Strategy<Value = char> {
     prop_oneof![4 => proptest::char::range(' ', '~'), 2 => prop_oneof![Just('/'), Just(' '), Just('0'), Just('9'), Just('8'), Just('1'), Just('-'), Just('k'), Just('K'), Just('x')], 1 => prop_oneof![Just('é'), Just('♔'), Just('\u{0}'), Just('\n'), Just('\t'), Just('ß')], 1 => any::<char>()]
 }
-fn mutfen_strategy(max_edits: usize) -> impl Strategy<Value = MutFen> {
+pub fn mutfen_strategy(max_edits: usize) -> impl Strategy<Value = MutFen> {
     (walk_strategy(40), counter_half(), counter_full(), proptest::collection::vec((0u8..6, any::<u16>(), edit_char()), 0..max_edits)).prop_map(|(base, half, full, edits)| MutFen { base, half, full, edits })
 }
 pub fn mutfen_string(m: &MutFen) -> Option<String> {
@@ -425,6 +425,11 @@ pub fn run_c15(ctx: &mut Ctx) {
         if n % 4 == 0 {
             strings.push(format!("{}♜/8/8/8/8/8/8/8 w - - 0 1", "8".repeat(n)));
         }
+    }
+    // a valid FEN followed by more fields (a front end that accepts `<fen> moves ...` must not trust them)
+    for tail in [" moves e3e4", " moves z9z9", " moves \u{e9}\u{e9}", " moves e2e4 e7e5 xxxx", " moves", " moves a1a1", " moves e2e9q", " bm e2e4;", " moves e7e8k"] {
+        strings.push(format!("rnbqkbnr/pppppppp/8/8/8/8/PPPPPPPP/RNBQKBNR w KQkq - 0 1{}", tail));
+        strings.push(format!("8/P3k3/8/8/8/8/8/4K3 w - - 12 40{}", tail));
     }
     strings.retain(|s| !s.contains('\0'));
     let strings = std::sync::Arc::new(strings);
